@@ -72,6 +72,20 @@ def gen_cases(run):
                                          rich=run.tier != 'quick', info=sk_info):
         out.append(Case(prog.function_source(), 'f(V(), V(), V())', True, 'skeleton'))
     info['skeletons'] = sk_info
+    # nested comprehensions: an inner iteration variable that the outer comprehension reads as an ordinary variable
+    nested = c08_gen.nested_comp_space()
+    ncap = 260 if run.tier == 'quick' else len(nested)
+    if len(nested) > ncap:
+        nstride = len(nested) // ncap + 1
+        noff = run.rng.randrange(nstride)
+        # every stride class still covers all roles / kinds / shapes over the seeds (the list is role-major)
+        nested_picked = nested[noff::nstride]
+    else:
+        nested_picked = nested
+    info['nested_comprehension_space'] = len(nested)
+    info['nested_comprehension_picked'] = len(nested_picked)
+    for d, s in nested_picked:
+        out.append(Case(s, 'f(V())', True, 'nested-comp', d))
     for s in c08_gen.SEEDS:
         out.append(Case(s, '', False, 'seed'))
     info['random'] = nrand
@@ -228,13 +242,17 @@ def static_oracle(p):
             continue
         a, b = a[0], b[0]
         aside = b['aside']
+        # a comprehension target that the function's own block also reads outside every comprehension hiding it is
+        # an ordinary variable there: its free / global status is compared
+        aside_reads = aside - b.get('unshadowed', set())
         for f in ['params', 'locals', 'globals', 'nonlocals', 'frees']:
-            for n in sorted((a[f] - b[f]) - aside):
+            asd = aside_reads if f == 'frees' else aside
+            for n in sorted((a[f] - b[f]) - asd):
                 obs.append((f + ':cpython-only', k, n))
-            for n in sorted((b[f] - a[f]) - aside):
+            for n in sorted((b[f] - a[f]) - asd):
                 obs.append((f + ':analysis-only', k, n))
         # every global name the function itself refers to must be among read - bound (free_vars) or declared global
-        for n in sorted((a['implicit_globals'] - b['free_vars'] - b['globals']) - aside):
+        for n in sorted((a['implicit_globals'] - b['free_vars'] - b['globals']) - aside_reads):
             obs.append(('implicit-global:not-free-var', k, n))
     return obs
 
@@ -249,8 +267,11 @@ def dynamic_oracle(p):
         elif isinstance(n, ast.ExceptHandler) and n.name:
             aside.add(n.name)
     checked = 0
+    handler_names = {n.name for n in ast.walk(p.fn) if isinstance(n, ast.ExceptHandler) and n.name}
+    free_reads = {e for e in getattr(p.trace, 'unshadowed', ()) if e[0] == 'read' and e[1] not in handler_names}
     for kind, name, nid, key in sorted(p.trace.events, key=lambda e: (p.ser.id_of(p.trace.nodes[e[2]]) or 0, e[3], e[0], e[1])):
-        if name in aside:
+        if name in aside and (kind, name, nid, key) not in free_reads:
+            # (a read made through a Name that no comprehension target hides is a read of the ordinary variable)
             continue
         node = p.trace.nodes[nid]
         sc = p.impl.scope_obj(node, key)
